@@ -118,6 +118,19 @@ def Store.putOrDrop (s : Store) (k : Bytes) (v : Val) : Store :=
     | .hash fs => fs.isEmpty | .list es => es.isEmpty | .set ms => ms.isEmpty | .zset ms => ms.isEmpty | .str _ => false
   if empty then s.del k else s.put k v
 
+/-- one (score, member) pair of ZADD: the member's entry moves to its new score; it counts when the member is new
+(a score the case's table cannot decode is outside the program space: skipped) -/
+def zaddStep (sc : ScoreTable) (acc : Int × List (Int × Bytes)) (p : UInt64 × Bytes) : Int × List (Int × Bytes) :=
+  match sc p.1 with
+  | some (.fin h) =>
+    let isNew := !(acc.2.any fun q => q.2 == p.2)
+    (if isNew then acc.1 + 1 else acc.1, zInsert (h, p.2) (acc.2.filter fun q => q.2 != p.2))
+  | _ => acc
+
+/-- the pairs of a ZADD with their scores decoded -/
+def decodeScores (sc : ScoreTable) (ms : List (UInt64 × Bytes)) : List (Int × Bytes) :=
+  ms.filterMap fun p => match sc p.1 with | some (.fin h) => some (h, p.2) | _ => none
+
 /-- the primitive handler operations -/
 def refHandle (sc : ScoreTable) (c : HCall) (s : Store) : HRes × Store :=
   match c with
@@ -212,13 +225,7 @@ def refHandle (sc : ScoreTable) (c : HCall) (s : Store) : HRes × Store :=
     (match (match s.get k with | some (.zset cur) => some cur | none => some [] | _ => none) with
      | none => (errRes b!"wrong type", s)
      | some cur =>
-       let step := fun (acc : Int × List (Int × Bytes)) (p : UInt64 × Bytes) =>
-         match sc p.1 with
-         | some (.fin h) =>
-           let isNew := !(acc.2.any fun q => q.2 == p.2)
-           (if isNew then acc.1 + 1 else acc.1, zInsert (h, p.2) (acc.2.filter fun q => q.2 != p.2))
-         | _ => acc
-       let (n, cur') := ms.foldl step (0, cur)
+       let (n, cur') := ms.foldl (zaddStep sc) (0, cur)
        (intRes n, s.putOrDrop k (.zset cur')))
   | .zrange k a b o => (match s.get k with
       -- with REV the indexes count from the highest (score, member): the slice of the descending order
